@@ -137,7 +137,7 @@ func (h *H) drainArrivals() {
 // quiesce waits until both background actors are parked at a gate, asleep
 // in a known wait, or gone.
 func (h *H) quiesce() error {
-	deadline := time.Now().Add(90 * time.Second)
+	deadline := time.Now().Add(45 * time.Second)
 	stable := 0
 	for {
 		h.drainArrivals()
@@ -165,7 +165,7 @@ func (h *H) quiesce() error {
 
 // waitPark waits for actor to arrive at the given gate.
 func (h *H) waitPark(actor, gate string) error {
-	deadline := time.Now().Add(90 * time.Second)
+	deadline := time.Now().Add(45 * time.Second)
 	for {
 		h.drainArrivals()
 		if h.parkedAt(actor) == gate {
@@ -323,7 +323,7 @@ func (h *H) closeAll() error {
 		done <- err
 	}()
 	if coll != nil {
-		deadline := time.Now().Add(90 * time.Second)
+		deadline := time.Now().Add(45 * time.Second)
 		for {
 			if d := moss.VerifDumpCollection(coll); d == nil || d.Closed {
 				break
@@ -339,7 +339,7 @@ func (h *H) closeAll() error {
 	h.releaseActor("persister")
 	tick := time.NewTicker(time.Millisecond)
 	defer tick.Stop()
-	timeout := time.After(120 * time.Second)
+	timeout := time.After(60 * time.Second)
 	for {
 		select {
 		case err := <-done:
